@@ -26,37 +26,8 @@ from sa import equiv, model  # noqa: E402
 ALL = [f'C{i:02d}' for i in range(1, 21)]
 
 
-def sources(repo):
-  out = {}
-  pkg = os.path.join(repo, model.PKG)
-  for root, dirs, files in os.walk(pkg):
-    for fn in sorted(files):
-      if fn.endswith('.py') and not fn.endswith('_test.py'):
-        p = os.path.join(root, fn)
-        out[os.path.relpath(p, repo)] = open(p, encoding='utf-8').read()
-  return out
-
-
 def make_variant(repo, seed, nmods, kinds, p, root, only=None):
-  srcs = sources(repo)
-  trees = {os.path.basename(r)[:-3]: ast.parse(s) for r, s in srcs.items() if os.path.dirname(r) == model.PKG}
-  sigs = equiv.signatures_of(trees)
-  rng = random.Random(seed)
-  rels = sorted(r for r in srcs if not r.endswith('__init__.py'))
-  if only:
-    chosen = [r for r in rels if os.path.basename(r)[:-3] in only]
-  elif nmods == 'all':
-    chosen = rels
-  else:
-    chosen = rng.sample(rels, min(int(nmods), len(rels)))
-  shutil.copytree(os.path.join(repo, model.PKG), os.path.join(root, model.PKG), ignore=shutil.ignore_patterns('__pycache__', '*.pyc'))
-  logs = {}
-  for r in chosen:
-    new, log = equiv.rewrite_source(srcs[r], rng.randrange(1 << 30), kinds, p, sigs, own_module=os.path.basename(r)[:-3])
-    with open(os.path.join(root, r), 'w', encoding='utf-8') as f:
-      f.write(new)
-    logs[r] = log
-  return chosen, logs
+  return equiv.make_variant(repo, seed, root, nmods, kinds, p, only)
 
 
 def run_check(pid, root):
